@@ -225,10 +225,11 @@ def eval_cases(outdir, model):
 # ---------------------------------------------------------------- classification
 
 def load_known(pid):
-    p = os.path.join(VERIF, "known_findings.json")
-    if not os.path.exists(p):
-        return []
-    return [k for k in json.load(open(p)) if k.get("property") == pid]
+    out = []
+    for p in [os.path.join(VERIF, "known_findings.json"), os.environ.get("VERIF_KNOWN")]:
+        if p and os.path.exists(p):
+            out += [k for k in json.load(open(p)) if k.get("property") == pid]
+    return out
 
 
 def sig_matches(entry, sig):
